@@ -374,17 +374,24 @@ class Sym:
         except TypeError:
             return None
 
+    # a symbolic value is a finite real: adding it to an infinity gives that infinity (IEEE), as a Python float
     def __add__(self, o):
+        if isinstance(o, float) and math.isinf(o):
+            return o
         q = self._other(o)
         return NotImplemented if q is None else simp(T.p_add(self.p, q))
 
     __radd__ = __add__
 
     def __sub__(self, o):
+        if isinstance(o, float) and math.isinf(o):
+            return -o
         q = self._other(o)
         return NotImplemented if q is None else simp(T.p_sub(self.p, q))
 
     def __rsub__(self, o):
+        if isinstance(o, float) and math.isinf(o):
+            return o
         q = self._other(o)
         return NotImplemented if q is None else simp(T.p_sub(q, self.p))
 
